@@ -20,7 +20,11 @@ def true_sep(ra1, dec1, ra2, dec2):
         n = max(u.shape[1], v.shape[1])
         u, v = np.broadcast_to(u, (3, n)), np.broadcast_to(v, (3, n))
     c = np.cross(u, v, axis=0)
-    return np.asarray(np.rad2deg(np.arctan2(np.sqrt((c * c).sum(axis=0)), (u * v).sum(axis=0))), dtype="f8")
+    with np.errstate(invalid="ignore"):
+        out = np.asarray(np.rad2deg(np.arctan2(np.sqrt((c * c).sum(axis=0)), (u * v).sum(axis=0))), dtype="f8")
+    # a position that is not a number is at no finite distance from anything: every tolerance comparison then fails
+    out[~np.isfinite(out)] = np.inf
+    return out
 
 
 def _pairs(tier, seed):
